@@ -17,7 +17,7 @@ mod run;
 
 pub const OP_NAMES: &[&str] = &[
     "TickClient", "TickServer", "Deliver", "Drop", "DeliverAll", "Submit", "Broadcast", "Recv", "Disconnect", "NewClient", "Mutate", "Replay",
-    "SockErr", "CrashClient", "Rejoin", "SpoofPort", "SetMaxClients",
+    "SockErr", "CrashClient", "Rejoin", "SpoofPort", "SetMaxClients", "StaleReply",
 ];
 pub const K_TICKCLIENT: u8 = 0;
 pub const K_TICKSERVER: u8 = 1;
@@ -36,6 +36,7 @@ pub const K_CRASH: u8 = 13;
 pub const K_REJOIN: u8 = 14;
 pub const K_SPOOFPORT: u8 = 15;
 pub const K_SETMAX: u8 = 16;
+pub const K_STALEREPLY: u8 = 17;
 
 pub const T0_SECS: u64 = 500;
 
